@@ -6,6 +6,8 @@ open PhQVerif Generated
 #print axioms PhQVerif.Props.C10.rebuild
 #print axioms PhQVerif.Props.C10.scalar_times_direction_constructors
 #print axioms PhQVerif.Props.C10.typed_component_accessors
+#print axioms PhQVerif.Props.C10.normalised_components_few_ulps_partial
+#print axioms PhQVerif.Props.C10.normalised_rounding_counts
 #eval s!"COUNT C10.direction_producing_entries {(quantityEntries.filter (fun e => e.producesDirection classes)).length}"
 #eval s!"COUNT C10.magnitude_entries {(quantityEntries.filter (fun e => e.mem == .magnitude)).length}"
 #eval s!"COUNT C10.scalar_direction_constructors {(quantityEntries.filter (fun e => e.isScaleDirCtor classes)).length}"
